@@ -113,7 +113,7 @@ void vf::run_case(Src &s, Ctx &c)
         double gx, gy;
         P->ps.xy(P->goals[0], gx, gy);
         P->env.obs.clear();
-        int walls = s.in(3, 7);
+        int walls = s.in(3, 14);
         double gap = s.real(0.5, 1.6), thick = s.real(0.15, 0.5);
         bool right = sx < 0.5 * (P->ps.lo + P->ps.hi);
         struct W
@@ -510,6 +510,33 @@ void vf::run_case(Src &s, Ctx &c)
             if (r2)
                 VCHECK(c, cp.check(), "C17/simplify-true-but-invalid", "simplify (termination condition firing at evaluation %ld) returned true but path.check() fails", k);
             VCHECK(c, cp.getStateCount() > 0 && image(cp.getState(0)) == imgFirst, "C17/first-state-changed/simplify", "simplify (firing index %ld) changed the first state", k);
+        }
+        {
+            // how many evaluations an uninterrupted run makes on this input (more than ~25 = more than one pass)
+            og::PathGeometric cp(path);
+            og::PathSimplifier ps2(si, goalForSimplifier, obj);
+            CountPTC p2;
+            p2.limit = 1000000;
+            ps2.simplify(cp, p2.make(), false);
+            long ev = p2.calls->load();
+            c.stat("simplify:evaluations-uninterrupted", (double)ev);
+            c.count(ev > 60 ? "simplify:>=3-passes" : ev > 28 ? "simplify:2-passes" : "simplify:1-pass");
+            // inputs on which the routine makes several passes: every firing index of the later passes, not only a window
+            if (ev > 28)
+                for (long k = 20; k <= std::min(ev, 140L); ++k)
+                {
+                    if (k >= base && k < base + 16)
+                        continue;
+                    og::PathGeometric cq(path);
+                    og::PathSimplifier ps3(si, goalForSimplifier, obj);
+                    CountPTC p3;
+                    p3.limit = k;
+                    if (ps3.simplify(cq, p3.make(), false))
+                        VCHECK(c, cq.check(), "C17/simplify-true-but-invalid", "simplify (termination condition firing at evaluation %ld of %ld) returned true but path.check() fails", k,
+                               ev);
+                    else
+                        c.count("simplify:interrupted-in-a-later-pass-and-reported-an-invalid-path");
+                }
         }
         c.count("simplify:firing-index-sweep");
     }
